@@ -1,7 +1,7 @@
 """C15 — app-pointer tokens are non-zero, bounded, unique and resolve to their pointer."""
 import itertools
 PROP = "C15"
-COQ_FILES = ["Machine.v", "AppPtr.v", "AppPtr_proofs.v"]
+COQ_FILES = ["Machine.v", "AppPtr.v", "AppPtr_proofs.v", "AppPtr_owner_proofs.v"]
 DRIVERS = [dict(name="appptr", src="appptr.cpp", ops=["amap", "aown"])]
 
 
@@ -57,7 +57,8 @@ def gen_cases(tier, rng):
                     ops.append("l:%d" % rng.randrange(0, min(mx, len(live) + 3) + 1))
             cases.append("amap %d %d %s" % (bits, mx, " ".join(ops)))
     # owner layer: exhaustive histories
-    oalpha = ["g:0:P", "g:1:P", "m:0:1", "m:1:0", "m:0:0", "m:2:0", "d:0", "d:1", "l:0", "l:1", "u:0", "u:1", "t:1", "t:2", "t:3"]
+    # g:1:0 registers the NULL application pointer: it gets a fresh non-zero token of its own like any other pointer
+    oalpha = ["g:0:P", "g:1:P", "g:1:0", "m:0:1", "m:1:0", "m:0:0", "m:2:0", "d:0", "d:1", "l:0", "l:1", "u:0", "u:1", "t:1", "t:2", "t:3"]
     od = 4 if tier == "quick" else 5
     for d in range(1, od + 1):
         for ops in itertools.product(oalpha, repeat=d):
@@ -88,9 +89,9 @@ def NONTRIVIAL(case, model, cls):
 
 RULE = ("token table app_pointer_map<uint8_t>: every history up to depth 5 (quick)/6 (thorough) over {register, release i, lookup i} for limits 1,2,3(,5); fill-to-exhaustion + one more, "
         "release/re-register around the parked cursor, for every limit 1..254; type-maximum limit without a full table; random histories of length 20..400 on 16/32/64-bit tables with "
-        "limits from 1 to the type maximum; owner layer through rlbox_sandbox<verif16>: every history up to depth 4/5 over {get into slot, move-assign (incl. self and from inert), "
+        "limits from 1 to the type maximum; owner layer through rlbox_sandbox<verif16>: every history up to depth 4/5 over {get into slot (incl. the null application pointer), move-assign (incl. self and from inert), "
         "unregister, lookup through the owner, is_unregistered, lookup of raw tokens} + random. The spec column is an independent reference (fresh token in [1,max], abort iff full, lookup = "
         "registered pointer until release). distinct = distinct history")
 TRUSTED = ["model coq/AppPtr.v hand-written; tied by differential correspondence on full histories (token values included)"]
 ASSUMPTIONS = ["limit below the token type's maximum (1 <= max < 2^w - 1) for the theorems; max = 2^w-1 with a full table diverges (N1, proved, outside the property)",
-               "owner layer: theorems partial (two computed statements); decided by exhaustive correspondence"]
+               "owner layer: proved for every history with slot numbers in range (C15_owners_all_histories); tied by exhaustive correspondence of histories"]
